@@ -324,6 +324,14 @@ impl DecodeBuffer {
     pub fn verif_total_output_counter(&self) -> u64 {
         self.total_output_counter
     }
+    /// Verification hook: copy of the bytes currently held, read-only.
+    pub fn verif_contents(&self) -> Vec<u8> {
+        let (s1, s2) = self.buffer.as_slices();
+        let mut v = Vec::with_capacity(s1.len() + s2.len());
+        v.extend_from_slice(s1);
+        v.extend_from_slice(s2);
+        v
+    }
 }
 
 /// Like Write::write_all but returns partial write length even on error
